@@ -2757,7 +2757,7 @@ class StateEngine(object):
             retry_timeout = context["State"].get("RetryTimeout", 0)
             self.event_dispatcher.set_timeout(asl_state_Parallel_delegate, retry_timeout)
 
-        def get_start_index(context):
+        def get_start_index(context, entering_map=False):
             """
             Boilerplate to retrieve the start index of the Map ItemProcessor or
             Iterator. This is used in the implementation of MaxConcurrency. The
@@ -2771,7 +2771,17 @@ class StateEngine(object):
             start = 0
             context_state = context["State"]
             if "Branch" in context_state and len(context_state["Branch"]):
-                iterator_range = context_state["Branch"][-1].get("Range", "0:0")
+                branch_info = context_state["Branch"][-1]
+                """
+                When a Map state is being entered only the marker published to
+                re-enter it for its next block counts (that has no "Index"). Any
+                other item on top of the stack belongs to the enclosing Map or
+                Parallel state, whose Range says nothing about this Map state.
+                """
+                if entering_map and "Index" in branch_info:
+                    return start
+
+                iterator_range = branch_info.get("Range", "0:0")
                 start = int(iterator_range.split(":")[0])
 
             return start
@@ -2881,7 +2891,7 @@ class StateEngine(object):
                 if length and not "Branch" in context_state:
                     context_state["Branch"] = []
 
-                start = get_start_index(context)
+                start = get_start_index(context, entering_map=True)
                 if length:
                     if start == 0:
                         if len(context_state["Branch"]) > 0:
@@ -3056,7 +3066,7 @@ class StateEngine(object):
             the "start" index to ensure we only set the RetryTimeout for
             the first "batch".
             """
-            if get_start_index(context) == 0:
+            if get_start_index(context, entering_map=True) == 0:
                 retry_timeout = context["State"].get("RetryTimeout", 0)
             else:
                 retry_timeout = 0
@@ -3455,7 +3465,8 @@ class StateEngine(object):
         set we will re-enter the Map state, possibly several times, to process
         the next batch of items so again we want to suppress the history update.
         """
-        reentered_map = state_type == "Map" and get_start_index(context) != 0
+        reentered_map = (state_type == "Map" and
+                         get_start_index(context, entering_map=True) != 0)
         if not context["State"].get("RetryCount") and not reentered_map:
             self.update_execution_history(
                 state_machine,
